@@ -182,7 +182,7 @@ func ModelFn(goName string, l interface{}) string {
 	case "lexLiteral":
 		return "Literal"
 	}
-	if strings.HasPrefix(goName, "stringLexer") {
+	if strings.Contains(goName, "stringLexer") {
 		return "String"
 	}
 	return goName
